@@ -327,7 +327,7 @@ class BaseCollection(BaseDisplayRepr):
             typechecks=True,
         )
 
-        # assign parent
+        # check all objects before changing anything: a rejected call leaves the tree untouched
         for obj in obj_list:
             if isinstance(obj, Collection):
                 # no need to check recursively with `collections_all` if obj is already self
@@ -335,19 +335,18 @@ class BaseCollection(BaseDisplayRepr):
                     raise MagpylibBadUserInput(
                         f"Cannot add {obj!r} because a Collection must not reference itself."
                     )
-            if obj._parent is None:
-                obj._parent = self
-            elif override_parent:
-                obj._parent.remove(obj)
-                obj._parent = self
-            else:
+            if obj._parent is not None and not override_parent:
                 raise MagpylibBadUserInput(
                     f"Cannot add {obj!r} to {self!r} because it already has a parent.\n"
                     "Consider using `override_parent=True`."
                 )
 
-        # set attributes
-        self._children += obj_list
+        # assign parent and set attributes
+        for obj in obj_list:
+            if obj._parent is not None:
+                obj._parent.remove(obj)
+            obj._parent = self
+            self._children.append(obj)
         self._update_src_and_sens()
 
         return self
